@@ -138,8 +138,11 @@ pub fn foreign_fds(rep: &Report, lib_inos: &BTreeSet<u64>) -> Vec<String> {
     for f in &rep.fds {
         if f.fd > 2 {
             if let Some(i) = f.pipe_ino() {
-                if lib_inos.contains(&i) && !own.contains(&(i, f.writable())) {
-                    bad.push(format!("child fd {} -> pipe:[{}] ({} end)", f.fd, i, if f.writable() { "write" } else { "read" }));
+                // any descriptor above 2 on a library-created pipe is a leak - also a second copy of the child's own
+                // stream end: the child can close its stdout/stderr and the parent would still not see end-of-file
+                if lib_inos.contains(&i) {
+                    let dup = own.contains(&(i, f.writable()));
+                    bad.push(format!("child fd {} -> pipe:[{}] ({} end{})", f.fd, i, if f.writable() { "write" } else { "read" }, if dup { ", extra copy of its own stream" } else { "" }));
                 }
             }
         }
